@@ -96,3 +96,72 @@ where
     let _ = verif::take_events();
     TRun { events, steps, quiescent, leftover_tasks: leftover }
 }
+
+/// Variant for scenarios with thread-local actors: their tasks run on the spawner's own OS thread
+/// and runtime, which a paused clock on this thread cannot see. The clock is real here, no timers
+/// are used by such scenarios, and the end of a run is detected by `settled()` (the harness's own
+/// knowledge that every client is finished or in a stable wait) after `grace_ms` of real idleness;
+/// a run that is idle but not settled for 20 graces is reported as not quiescent.
+pub fn run_t_real<S, Fut, E, Q>(ex: &mut Explorer, max_steps: usize, grace_ms: u64, setup: S, at_end: E, settled: Q) -> TRun
+where
+    S: FnOnce() -> Fut,
+    Fut: Future<Output = ()>,
+    E: FnOnce(),
+    Q: Fn() -> bool,
+{
+    let rt = tokio::runtime::Builder::new_current_thread().enable_all().build().expect("runtime");
+    verif::enable(true);
+    let _ = verif::take_events();
+    verif::sched_enable(true);
+    verif::set_now(0);
+    let mut steps = 0usize;
+    let mut quiescent = false;
+    rt.block_on(async {
+        setup().await;
+        let mut last: Option<u64> = None;
+        let mut idle_rounds = 0;
+        loop {
+            if steps >= max_steps {
+                break;
+            }
+            match tokio::time::timeout(Duration::from_millis(grace_ms), verif::DriverWait).await {
+                Err(_) => {
+                    if settled() {
+                        quiescent = true;
+                        break;
+                    }
+                    idle_rounds += 1;
+                    if idle_rounds >= 20 {
+                        break;
+                    }
+                }
+                Ok(mut r) => {
+                    idle_rounds = 0;
+                    let mut cont = false;
+                    if let Some(l) = last {
+                        if let Some(p) = r.iter().position(|x| x.0 == l) {
+                            let x = r.remove(p);
+                            r.insert(0, x);
+                            cont = true;
+                        }
+                    }
+                    let c = ex.choose(r.len(), cont);
+                    let id = r[c].0;
+                    last = Some(id);
+                    verif::grant(id);
+                    verif::StepDone.await;
+                    steps += 1;
+                }
+            }
+        }
+        at_end();
+    });
+    let leftover = verif::live_tasks();
+    verif::sched_enable(false);
+    let events = verif::take_events();
+    verif::enable(false);
+    drop(rt);
+    verif::enable(true);
+    let _ = verif::take_events();
+    TRun { events, steps, quiescent, leftover_tasks: leftover }
+}
